@@ -7,6 +7,7 @@ import (
 // Ask is a pending hidden question (password prompt): input is not echoed until the next return.
 type Ask struct {
 	Prompt   string
+	Echo     bool // the answer is echoed (confirm-style question); passwords are not
 	OnAnswer func(c *CLI, answer string) string
 }
 
@@ -68,7 +69,7 @@ func (c *CLI) OnInput(b []byte) []byte {
 		if ch != '\n' {
 			c.line = append(c.line, ch)
 
-			if c.Pending == nil && !c.NoEcho {
+			if (c.Pending == nil || c.Pending.Echo) && !c.NoEcho {
 				out.WriteByte(ch)
 				c.echoed++
 
